@@ -61,8 +61,9 @@ def check(ctx):
     # mechanisms this property rests on (see shared.py): a change there is reported here as well
     from . import shared as _sh
 
-    ctx.run(_sh.graph_loader)
-    ctx.run(_sh.cli_layer, "gaftools.cli.order_gfa")
+    ctx.run(_sh.r07_12, g)  # C07 owns the loader rules
+    ctx.run_shared(_sh.graph_loader)
+    ctx.run_shared(_sh.cli_layer, "gaftools.cli.order_gfa")
 
 
 def r07_1(ctx, g):
